@@ -27,6 +27,7 @@ class Result:
         self.failures = []          # symbolised failure records (dicts)
         self.known_hits = collections.OrderedDict()
         self.unknown = collections.OrderedDict()   # key -> first failure
+        self.slow = 0
 
     def add(self, f):
         self.failures.append(f)
@@ -46,6 +47,7 @@ class Result:
         for kid, h in self.known_hits.items():
             desc = next(k['what'] for k in self.known['findings'] if k['id'] == kid)
             log('KNOWN-FINDING: property=%s %s [%s; %d failing cells this run]' % (self.prop, desc, kid, h['count']))
+        self.confirmed = 0
         if not self.unknown:
             return 0
         os.makedirs(REPLAYS, exist_ok=True)
@@ -80,6 +82,13 @@ class Result:
                         f['kind'], f['params'], f['src'], f['op'], f['sig'], u['count'], f.get('detail', '')[:160], thr[2]))
                     confirmed += 1
                     continue
+                if f.get('sig', '') == 'timeout':
+                    # no progress within the per-operation limit while 16 shards shared the machine; alone, with a 300 s limit, the same
+                    # sub-cell finished: slow, not a hang
+                    log('NOTE property=%s %s %s src=%s op=%s: exceeded the per-operation time limit in the sharded run, completed when re-run alone (not a violation)' % (
+                        self.prop, f['kind'], f['params'], f['src'], f['op']))
+                    self.slow += 1
+                    continue
                 log('UNREPRODUCED property=%s key=%s (%s) -- harness error, witness did not replay identically' % (self.prop, k, text))
                 unrepro += 1
                 continue
@@ -87,6 +96,7 @@ class Result:
             log('VIOLATION property=%s replay=%s' % (self.prop, path))
             log('   %s %s src=%s op=%s sig=%s cells=%d preds=%s :: %s' % (f['kind'], f['params'], f['src'], f['op'], f['sig'], u['count'], ','.join(sorted(u['preds'])), f.get('detail', '')[:160]))
         # exit 1 only together with at least one VIOLATION line; witnesses that could not be replayed alone are a harness error (2)
+        self.confirmed = confirmed
         return 1 if confirmed else (2 if unrepro else 0)
 
 
@@ -104,6 +114,9 @@ class BX:
             # ramps: every cardinality 1..62 along the lexicographic and the shortlex order of U(2,5) (size relations:
             # word/table/bucket boundaries, grammars with many rules, full decoding-table chunks)
             'sigma=2,L=5,pal=abc,stretch=1,pd=minb,nf=1,ramp=both',
+            # replication: 40 copies (distinct 2-byte tags) of every set of <= 2 strings behind a shared prefix of 127..129 bytes:
+            # the statistical coders only give 2-3 bit codewords (several strings per 16-bit decoding chunk) on inputs of this size
+            'sigma=2,L=2,pal=abc,stretch=1,pd=minb,nf=1,rep=40,maxn=2,pre=125+126+127',
         ],
         'thorough': [
             'sigma=2,L=2,pal=abc+ext+sgn+spr,stretch=1+130,pd=full,nf=4',
@@ -121,9 +134,12 @@ class BX:
             'sigma=4,L=3,exact=1,pal=abc+spr,stretch=1,pd=quick,nf=1,ramp=lex',
             'sigma=2,L=5,pal=abc,stretch=130,pd=min,nf=1,ramp=shortlex',
             'sigma=2,L=5,pal=abc,stretch=1,pd=min,nf=1,co=1',
+            'sigma=2,L=2,pal=abc+sgn,stretch=1,pd=minb,nf=1,rep=40,pre=0+125+126+127',
+            'sigma=2,L=2,pal=abc,stretch=1,pd=minb,nf=1,rep=99,maxn=3,pre=126+16382',
+            'sigma=3,L=2,pal=abc,stretch=1,pd=minb,nf=1,rep=30,maxn=3,pre=0+126',
         ],
     }
-    DEADLINE = {'quick': 240, 'thorough': 2700}
+    DEADLINE = {'quick': 300, 'thorough': 3600}
     KINDS = {   # properties that only concern some kinds
         'C04': 'PFC+RPFC+HTFC+HHTFC+RPHTFC+RPDAC+FMINDEX+XBW',
         'C05': 'FMINDEX+XBW',
@@ -155,8 +171,16 @@ class BX:
 
     def replay_one(self, binary, f):
         cell = dict(kv.split('=') for kv in f.get('cell', '').split(',') if '=' in kv)
-        cmd = [binary, '--one', '--prop', f['prop'], '--kind', f['kind'], '--params', f['params'], '--strings', f['strings'], '--src', f['src'],
-               '--sigma', cell.get('sigma', '2'), '--L', cell.get('L', '2'), '--stretch', cell.get('stretch', '1'), '--pal', cell.get('pal', 'abc'), '--nf', cell.get('nf', '2'), '--pre', cell.get('pre', '0')]
+        strings = f['strings']
+        if len(strings) > 60000:      # a single argv entry is limited to 128 KiB: large witnesses go through a file
+            os.makedirs(SCRATCH, exist_ok=True)
+            sf = os.path.join(SCRATCH, 'strings.%d.%s.hex' % (os.getpid(), hashlib.sha1(strings.encode()).hexdigest()[:10]))
+            open(sf, 'w').write(strings)
+            strings = '@' + sf
+        cmd = [binary, '--one', '--prop', f['prop'], '--kind', f['kind'], '--params', f['params'], '--strings', strings, '--src', f['src'],
+               '--sigma', cell.get('sigma', '2'), '--L', cell.get('L', '2'), '--stretch', cell.get('stretch', '1'), '--pal', cell.get('pal', 'abc'), '--nf', cell.get('nf', '2'), '--pre', cell.get('pre', '0'), '--rep', cell.get('rep', '1')]
+        if 'timeout' in f.get('sig', ''):
+            cmd += ['--subtimeout', '300']      # a timed-out sub-cell is re-run alone with a long limit before it is called a hang
         keys = []
         for _ in range(2):
             p = subprocess.run(cmd, stdout=subprocess.PIPE, stderr=subprocess.PIPE, text=True)
@@ -205,11 +229,19 @@ class BX:
         binaries = {}
         for flav in flavours:
             binaries[flav] = vlib.build_tool(flav, 'bx')
+        runs = []
         for si, scope in enumerate(self.scopes(prop, tier)):
             for flav in flavours:
-                if tier == 'quick' and flav != flavours[0] and si not in (0, 2):
-                    continue      # quick tier: the small-MEMALLOC flavour on the two exhaustive subset scopes only
+                if tier == 'quick' and flav != flavours[0] and any(t in scope for t in ('pre=', 'stretch=130', 'rep=', 'L=4,')):
+                    continue      # quick tier: the small-MEMALLOC flavour on the two exhaustive subset scopes and the ramp only
+                runs.append((scope, flav))
+        for ri, (scope, flav) in enumerate(runs):
+            if True:
                 left = deadline - (time.time() - t0)
+                if tier != 'quick':
+                    # thorough tier: every scope gets a fair share of what is left (unused time rolls over), so that a large early
+                    # scope cannot starve the later ones; a scope cut by its share is reported as incomplete with the units it covered
+                    left = max(30.0, left * 1.6 / (len(runs) - ri)) if left > 5 and ri < len(runs) - 1 else left
                 if left < 5:
                     cov['exhaustive'] = False
                     cov['scopes_incomplete'].append({'scope': scope, 'flavour': flav, 'reason': 'deadline reached before start'})
@@ -248,17 +280,19 @@ class BX:
             # thread count is a tuning parameter too; BX runs the worker threads under the OS scheduler (one schedule per cell), so the
             # thread dimension is decided by the controlled scheduler: every interleaving (within the preemption bound) of the real block
             # constructor must give the image of the single-thread build -- equal images answer every query identically.
-            if self.thread_dimension(tier, max(10, deadline - (time.time() - t0)), cov):
+            nthr = self.thread_dimension(tier, max(10, deadline - (time.time() - t0)), cov)
+            if nthr:
                 rc = 1
+                res.confirmed += nthr
         cov['known_findings_hit'] = {k: v['count'] for k, v in res.known_hits.items()}
-        cov['distinct_failure_signatures'] = len(res.unknown) + len(res.known_hits)
+        cov['distinct_failure_signatures'] = res.confirmed + len(res.known_hits)
         cov['rule'] = ('every non-empty subset S of U(sigma,L) (all strings of length <= L over sigma symbols; maxn/co restrict |S| as stated per scope) '
                        'x palettes x stretch factors x kinds x parameter domain pd x sources {fresh, generic loader, own loader (each load option), re-saved reload} '
                        'x the whole query universe; states = dictionary objects examined, transitions = API calls executed and compared with the reference model, '
                        'traces_validated = sub-cells (kind, parameters, source) run on the real code')
         if not cov['samples']:
             cov['samples'] = [{'note': 'no unit executed'}]
-        vlib.write_evidence(prop, tier, seed, cov, time.time() - t0, len(res.unknown), self.ASSUME)
+        vlib.write_evidence(prop, tier, seed, cov, time.time() - t0, res.confirmed, self.ASSUME)
         log('%s %s: %d units, %d sub-cells, %d objects, %d calls, %d blocked, exhaustive=%s, %.1fs, rc=%d' % (
             prop, tier, cov['units'], cov['subcells'], cov['states'], cov['transitions'], cov['blocked_subcells'], cov['exhaustive'], time.time() - t0, rc))
         return rc
@@ -564,7 +598,7 @@ class SX:
             bxe = BX()
             rc2 = res.finish(lambda f: bxe.replay_one(vlib.build_tool('asan', 'bx'), f))
             rc = rc or rc2
-            nviol += len(res.unknown)
+            nviol += res.confirmed
             cov['data_dimension'] = bx_part['scopes']
         cov['rule'] = ('every thread interleaving at pthread synchronisation points of the real code (unmodified parallel/Worker.hpp and block constructor, pthread_* interposed), '
                        'iterative preemption bounding, each execution in a forked child; states = distinct abstract scheduler states at choice points, transitions = choice points executed, '
@@ -701,7 +735,7 @@ class KX:
         cov['rule'] = 'states = component instances built (cases); transitions = individual answers compared with the plain-array definition; every case runs on the real component code'
         if not cov['samples']:
             cov['samples'] = [{'note': 'nothing executed'}]
-        vlib.write_evidence(prop, tier, seed, cov, time.time() - t0, len(res.unknown), self.ASSUME)
+        vlib.write_evidence(prop, tier, seed, cov, time.time() - t0, res.confirmed, self.ASSUME)
         log('%s %s: %d cases, %d checks, %d blocked units, exhaustive=%s, %.1fs, rc=%d' % (prop, tier, cov['states'], cov['transitions'], cov['blocked_units'], cov['exhaustive'], time.time() - t0, rc))
         return rc
 
@@ -809,7 +843,7 @@ class HX:
                        'and every interleaving of two open iterators with look-ups in between')
         if not cov['samples']:
             cov['samples'] = [{'note': 'nothing executed'}]
-        vlib.write_evidence(prop, tier, seed, cov, time.time() - t0, len(res.unknown), self.ASSUME)
+        vlib.write_evidence(prop, tier, seed, cov, time.time() - t0, res.confirmed, self.ASSUME)
         log('%s %s: %d objects, %d states, %d transitions (%d self-loops, %d image changes), %d blocked, exhaustive=%s, %.1fs, rc=%d' % (
             prop, tier, cov['objects_explored'], cov['states'], cov['transitions'], cov['self_loops'], cov['image_changing_transitions'], cov['blocked_objects'], cov['exhaustive'], time.time() - t0, rc))
         return rc
